@@ -29,13 +29,14 @@ func (core *JApiCore) buildRule(d *directive.Directive) *jerr.JApiError {
 		return nil
 	}
 
-	if !d.BodyCoords.IsSet() {
-		return nil
-	}
-
 	name := d.NamedParameter("Name")
 	if name == "" {
 		return d.KeywordError(fmt.Sprintf("%s (%s)", jerr.RequiredParameterNotSpecified, "Name"))
+	}
+
+	// An ENUM without a body (the last token of a file) declares nothing: it was dropped silently.
+	if !d.BodyCoords.IsSet() {
+		return d.KeywordError(jerr.EmptyBody)
 	}
 
 	r := enum.New(name, d.BodyCoords.Read())
